@@ -40,7 +40,7 @@ func init() {
 	})
 	register(&Spec{
 		ID: "C12",
-		Explanation: "Decides: R1 no case-sensitive comparison has an operand derived from Access-Control-Request-Headers (taint from the header read through trimming, splitting, ranging and closure capture), and a case-insensitive comparison exists; R2 the constants added to Vary are exactly the request header names the CORS decision reads; R3 Allow-Methods, Allow-Headers and Max-Age are written only behind the preflight condition, Allow-Origin / Allow-Credentials / Expose-Headers are not; R4 value provenance: Allow-Methods is AllowHeader() of the node whose Methods() was tested, Allow-Headers / Expose-Headers / Max-Age are the strings sanitize derives by Join/Itoa from the configured lists and number, each guarded by its own non-emptiness. " +
+		Explanation: "Decides: R1 no case-sensitive comparison has an operand derived from Access-Control-Request-Headers (taint from the header read through trimming, splitting, ranging and closure capture), and a case-insensitive comparison exists; R2 the constants added to Vary are exactly the request header names the CORS decision reads; R3 Allow-Methods, Allow-Headers and Max-Age are written only behind the preflight condition, Allow-Origin / Allow-Credentials / Expose-Headers are not; R4 value provenance: Allow-Methods is AllowHeader() of the node whose Methods() was tested, Allow-Headers / Expose-Headers / Max-Age are the strings sanitize derives by Join/Itoa from the configured lists and number, each guarded by its own non-emptiness; R6 completeness: under the assumptions enabled / origin listed / method served / requested headers allowed / own configured value present, every path through the procedure writes each header (Allow-Methods, Allow-Headers, Max-Age, Vary: Access-Control-Request-Method / -Headers on preflights; Allow-Origin, Allow-Credentials, Expose-Headers, Vary: Origin when the origin is picked from the list). " +
 			"Not decided: that a browser accepts the result.",
 		Assumptions: commonAssumptions,
 		Run: func(c *Ctx) {
@@ -49,6 +49,7 @@ func init() {
 			rulePreflightOnly(c, "R3")
 			ruleCorsProvenance(c, "R4")
 			ruleCorsAlwaysOnServed(c, "R5")
+			ruleGrantComplete(c, "R6")
 		},
 	})
 }
@@ -1031,6 +1032,140 @@ func ruleCorsProvenance(c *Ctx, rule string) {
 		goodAH = j == 2
 	}
 	c.R.Add(rule, c.fk(sanitize), "derive:allowHeadersString", c.P.Pos(sanitize.Pos()), goodAH, ifelse(goodAH, "= Join(AllowHeaders, \",\") or the '*' form", fmt.Sprintf("allowHeadersString is derived as %v", ah)))
+}
+
+// membershipAssume: every membership test (slices.Contains / slices.Index against 0 or -1) succeeds.
+func membershipAssume(cond ssa.Value) (bool, bool) {
+	v, neg := stripNot(cond)
+	if call, ok := v.(*ssa.Call); ok {
+		if n := an.CalleeName(&call.Call); n == "slices.Contains" || n == "slices.ContainsFunc" {
+			return !neg, true
+		}
+		return false, false
+	}
+	bo, ok := v.(*ssa.BinOp)
+	if !ok {
+		return false, false
+	}
+	call, ok := bo.X.(*ssa.Call)
+	if !ok || (an.CalleeName(&call.Call) != "slices.Index" && an.CalleeName(&call.Call) != "slices.IndexFunc") {
+		return false, false
+	}
+	k, ok := bo.Y.(*ssa.Const)
+	if !ok || k.Value == nil {
+		return false, false
+	}
+	n := k.Int64()
+	var val bool
+	switch {
+	case bo.Op == token.LSS && n == 0, bo.Op == token.EQL && n == -1, bo.Op == token.LEQ && n == -1:
+		val = false
+	case bo.Op == token.GEQ && n == 0, bo.Op == token.GTR && n == -1, bo.Op == token.NEQ && n == -1:
+		val = true
+	default:
+		return false, false
+	}
+	return val != neg, true
+}
+
+// ruleGrantComplete is C12.R6: a request that is granted receives everything that was configured. For each CORS
+// response header: assuming the procedure is enabled, every membership test succeeds (origin listed, method served),
+// the requested headers are allowed and the header's own configured value is present, every path through the
+// procedure writes the header. An extra condition in front of a write (another setting being empty, more than one
+// configured origin, …) leaves a path to the exit that avoids it.
+func ruleGrantComplete(c *Ctx, rule string) {
+	handle, isAllowed, _ := corsFuncs(c)
+	c.R.Rule(c.R.Property+"."+rule, 7, "an allowed request carries every configured header: no write of a CORS response header is gated by anything but the request being granted and its own configured value")
+	reachH := an.NewGraph(c.P).Reach([]*ssa.Function{handle}, nil)
+	type want struct {
+		name, vary string
+		field      string // configured string that must be non-empty
+		boolField  string // configured flag that must be set
+		preflight  bool
+		listed     bool // the origin is picked from the list (anyOrigins false)
+	}
+	wants := []want{
+		{name: hACAM, preflight: true},
+		{name: hACAH, field: "allowHeadersString", preflight: true},
+		{name: hACMA, field: "maxAgeString", preflight: true},
+		{name: hVary, vary: hACRM, preflight: true},
+		{name: hVary, vary: hACRH, field: "allowHeadersString", preflight: true},
+		{name: hACAO},
+		{name: hACAC, boolField: "AllowCredentials"},
+		{name: hACEH, field: "exposedHeadersString"},
+		{name: hVary, vary: "Origin", listed: true},
+	}
+	for _, w := range wants {
+		w := w
+		writes := map[ssa.Instruction]bool{}
+		for _, hw := range c.headerWrites() {
+			if _, in := reachH[hw.f]; !in || hw.name != w.name || hw.op == "Del" {
+				continue
+			}
+			if w.vary != "" {
+				if s, ok := strConst(hw.val); !ok || s != w.vary {
+					continue
+				}
+			}
+			writes[hw.in] = true
+		}
+		label := w.name
+		if w.vary != "" {
+			label = "Vary:" + w.vary
+		}
+		if len(writes) == 0 {
+			c.R.Add(rule, c.fk(handle), "grant-carries:"+label, c.P.Pos(handle.Pos()), false, "the CORS procedure never writes "+label)
+			continue
+		}
+		assume := func(cond ssa.Value) (bool, bool) {
+			v, neg := stripNot(cond)
+			if u, ok := v.(*ssa.UnOp); ok && u.Op == token.MUL {
+				switch an.AP(u.X) {
+				case "recv.deny":
+					return neg, true // enabled
+				case "recv." + w.boolField:
+					return !neg, true
+				case "recv.anyOrigins":
+					if w.listed {
+						return neg, true
+					}
+				}
+			}
+			if call, ok := v.(*ssa.Call); ok && an.StaticCallee(&call.Call) == isAllowed {
+				return !neg, true
+			}
+			if val, ok := membershipAssume(cond); ok {
+				return val, true
+			}
+			if w.preflight {
+				if val, ok := preflightAssume(cond); ok {
+					return val, true
+				}
+			}
+			return false, false
+		}
+		q := &an.Query{
+			Assume: assume, Facts: true, Deep: deepDefault,
+			Descend: func(g *ssa.Function) bool { return g != isAllowed },
+			Block:   func(in ssa.Instruction) bool { return writes[in] },
+			Target: func(in ssa.Instruction) bool {
+				_, isRet := in.(*ssa.Return)
+				return isRet && in.Parent() == handle
+			},
+		}
+		if w.field != "" {
+			q.InitNeq = map[string][]string{"recv." + w.field: {`""`}}
+		}
+		path := q.Search(an.Entry(handle))
+		var at string
+		for in := range writes {
+			at = c.pos(in)
+		}
+		o := c.R.Add(rule, c.fk(handle), "grant-carries:"+label, at, path == nil, ifelse(path == nil, "written on every granted path", "a granted request can leave the CORS procedure without "+label+" although it is configured: something other than the grant and its own value gates the write"))
+		if path != nil {
+			o.Path = c.P.PathString(path)
+		}
+	}
 }
 
 // corsRootsFor: the CORS decision entry when f belongs to it, else f.
